@@ -76,7 +76,7 @@ def newest_mtime(paths):
     return m
 
 
-def ensure_driver(name, flavor, extra_flags=None, extra_srcs=None):
+def ensure_driver(name, flavor, extra_flags=None, extra_srcs=None, plain_c=None):
     """Compile drv/<name>.cpp against the flavor's library. Recompiled whenever the library was relinked
     (headers / class layouts may have changed) or a driver source is newer."""
     lib = ensure_lib(flavor, quiet=True)
@@ -87,7 +87,8 @@ def ensure_driver(name, flavor, extra_flags=None, extra_srcs=None):
     fcntl.flock(lock, fcntl.LOCK_EX)
     try:
         drv = os.path.join(VERIF, "drv")
-        deps = [os.path.join(drv, name + ".cpp")] + [os.path.join(drv, s) for s in (extra_srcs or [])]
+        deps = [os.path.join(drv, name + ".cpp")] + [os.path.join(drv, s) for s in (extra_srcs or [])] + [os.path.join(drv, s) for s in (plain_c or [])]
+        deps += [os.path.join(drv, s[:-2] + ".h") for s in (plain_c or [])]
         dfile = out + ".d"
         if os.path.exists(dfile):  # exact header dependencies inside /verif/drv from the last compile (-MMD)
             for tok in open(dfile).read().replace("\\\n", " ").split():
@@ -100,12 +101,18 @@ def ensure_driver(name, flavor, extra_flags=None, extra_srcs=None):
             return out
         fl = FLAVORS[flavor]
         srcs = [os.path.join(drv, name + ".cpp")] + [os.path.join(drv, s) for s in (extra_srcs or [])]
-        cmd = [fl["cxx"], "-std=c++17"] + fl["flags"].split() + ["-Wno-unused-value",
-               "-I" + os.path.join(REPO, "src"), "-I" + os.path.join(d, "src"), "-I" + drv] + srcs + \
-              ["-MMD", "-MF", out + ".d", "-o", out + ".tmp", lib, "-Wl,-rpath," + os.path.dirname(lib), "-lexpat", "-licuuc", "-licudata", "-lpthread"] + (extra_flags or [])
         log = out + ".log"
         if os.path.exists(log):
             os.unlink(log)
+        for cfile in (plain_c or []):  # C sources that must stay uninstrumented (scheduler core)
+            obj = out + "." + cfile + ".o"
+            if run(["clang", "-O1", "-g", "-fPIC", "-c", os.path.join(drv, cfile), "-I" + drv, "-o", obj], log) != 0:
+                sys.stderr.write(open(log).read()[-4000:])
+                raise RuntimeError("plain C source %s failed to compile" % cfile)
+            srcs.append(obj)
+        cmd = [fl["cxx"], "-std=c++17"] + fl["flags"].split() + ["-Wno-unused-value",
+               "-I" + os.path.join(REPO, "src"), "-I" + os.path.join(d, "src"), "-I" + drv] + srcs + \
+              ["-MMD", "-MF", out + ".d", "-o", out + ".tmp", lib, "-Wl,-rpath," + os.path.dirname(lib), "-lexpat", "-licuuc", "-licudata", "-lpthread"] + (extra_flags or [])
         if run(cmd, log) != 0:
             sys.stderr.write(open(log).read()[-4000:])
             raise RuntimeError("driver %s failed to compile (flavor %s), see %s" % (name, flavor, log))
